@@ -1,7 +1,7 @@
 use crate::{
     cfg::{Cfg, Segment},
     parser::InstructionProperties,
-    passes::{DiagnosticManager, LintError, LintPass},
+    passes::{DiagnosticLocation, DiagnosticManager, LintError, LintPass},
 };
 
 /// A lint to ensure that instructions only exist in the text
@@ -13,9 +13,21 @@ use crate::{
 pub struct InstructionInTextCheck;
 impl LintPass for InstructionInTextCheck {
     fn run(cfg: &Cfg, errors: &mut DiagnosticManager) {
+        // A statement that stands for two instructions (`lw rd, label` is `la` + `lw`) is one
+        // statement in the wrong segment: the instruction behind the first one covers the same
+        // text and is not reported again
+        let mut previous = None;
         for node in cfg {
             if node.is_instruction() && node.segment() != Segment::Text {
-                errors.push(LintError::InvalidSegment(node.node().clone()));
+                // (a node that was not read from a source text has no place to compare)
+                let place = (node.node().file(), node.node().range());
+                let from_source = !node.node().raw_text().is_empty();
+                if !from_source || previous.as_ref() != Some(&place) {
+                    errors.push(LintError::InvalidSegment(node.node().clone()));
+                }
+                previous = from_source.then_some(place);
+            } else {
+                previous = None;
             }
         }
     }
